@@ -56,6 +56,8 @@ OPTIONAL_COMBOS = [
     {'pattern_idx': F(lambda: np.array([0, 2, 2, 3])), 'pattern_descriptor': 'index', 'ridge_weight': 0.5},
     {'pattern_idx': F(lambda: np.array([10, 30, 30])), 'pattern_descriptor': 'grp', 'method': 'corr'},
     {'theta': F(lambda: np.array([0.5, 1.5, 1.0]))},
+    {'theta': F(lambda: np.array([-0.5, 1.5, -1.0]))},          # parameters outside the range a fit would return
+    {'theta': F(lambda: np.array([0, 2, 1]))},
     {'fitter': F(lambda: __import__('rsatoolbox').model.fitter.fit_optimize)},
     {'weights': F(lambda: np.array([1.0, 2.0, 0.5, 1.5]))},
     {'model_var': F(lambda: np.array([0.02, 0.03, 0.01])), 'diff_var': F(lambda: np.array([0.04, 0.02, 0.03])),
